@@ -263,6 +263,8 @@ ENTRY_PARAMS = {
     "H_C05_RegisterPipeline": dict(quick=dict(K=2, L=2), thorough=dict(K=2, L=3)),
     "H_C06_RegisterPipeline": dict(quick=dict(K=2, L=3), thorough=dict(K=2, L=4)),
     "H_C07_pipeline_other_type": dict(quick=dict(K=2, L=2), thorough=dict(K=2, L=2)),
+    # K=3, L=4 costs 52 wall-minutes for C06's thorough tier (run #8), most of it here: deepen L only
+    "H_C06_RemovePipelineAndNodes": dict(quick=dict(K=2, L=3), thorough=dict(K=2, L=4)),
 }
 # Entries that are not re-run under the other solvers in the thorough tier (hundreds of thousands of paths each; the
 # cross-solver agreement is sampled on every other entry, which exercise the same encodings)
